@@ -109,7 +109,7 @@ fn try_spend(w: &mut World, id: CoinID, cdh: &CoinDataHeight) -> Option<(Transac
 pub fn run(p: &Params) -> Report {
     let mut rep = Report::new("C13");
     rep.rule = "cases = histories on networks/heights outside the legacy windows, fabricated 1-3 blocks before an epoch boundary (k*200000) so that real seal/next_unsealed calls cross it, with pre-existing stakes ending in the current, next and later epochs and stake transactions covering every ordering of (current, start, end) epochs, equal/unequal amounts, wrong first-output denomination, undecodable documents. A stake model (registered iff first output SYM = declared amount, start > current epoch, end > start; removed when the epoch after `end` begins) is compared after every batch and block with the registered set, votes()/total_votes() for 5 epochs and the stakes_hash; every registered stake's coin is spent in an otherwise valid transaction on a clone (same block, later blocks, across the boundary) and must be refused until the epoch after `end`, then accepted. Non-trivial = each stake document applied and each spend attempt; distinct by transaction hash and height".into();
-    let total = p.n(200, 4000);
+    let total = p.n(1000, 25000);
     let mine = p.share(total);
     let mut rng = Rng::new(p.shard_seed() ^ 0xC13);
     for case in 0..mine {
